@@ -234,3 +234,26 @@ _add("s1_hex_upper_with_base64_registered", Tmpl(b" ", b"4A4B4C4D4E4F5A5B5C5D", 
      funcs=["multidecoder.decoders.hex.find_hex", "multidecoder.decoders.base64.find_base64"], extra_pre="not (h0 == 48 and h1 == 48)")
 _add("s1_hex_lower_with_base64_registered", Tmpl(b" ", b"4a4b4c4d4e4f5a5b5c5d", (2, "lhex"), b"7e", b" "), s1_hex_with_base64_in_registry,
      funcs=["multidecoder.decoders.hex.find_hex", "multidecoder.decoders.base64.find_base64"], extra_pre="not (h0 == 48 and h1 == 48)")
+
+
+def s2_unescape_of_reverse(data):
+    # P + unescape('reverse(%27' b a '%27)') + S : outer percent-unescape -> reverse('ba') ; inner reverse -> ab
+    md = Multidecoder(decoders=[find_unescape, find_reverse, find_executable_name])
+    root = md.scan(data)
+    e0 = data.index(b"unescape(")
+    lit = list(data[e0 + 21: e0 + 23])
+    plain1 = list(b"reverse('") + lit + list(b"')")
+    payload = lit[::-1]
+    enc_len = len(b"unescape('reverse(%27") + 2 + len(b"%27)')")
+    r = chain_ok(data, root, [("string", "function.unescape", plain1), ("string", "reverse", payload)], e0, enc_len, payload)
+    if r is not True:
+        return r, True
+    got = root.flatten()
+    want = list(data[:e0]) + [34, 34] + payload + [34, 34] + list(data[e0 + enc_len:])
+    if not same_bytes(got, want):
+        return hx.fail("flatten of a two-layer stack (unescape of reverse)", data=data, got=got), True
+    return True, True
+
+
+_add("s2_unescape_of_reverse", Tmpl((1, "neutral2"), b"unescape('reverse(%27", (2, "plain"), b"%27)')", (1, "neutral2")), s2_unescape_of_reverse,
+     funcs=["multidecoder.decoders.javascript.find_unescape", "multidecoder.decoders.reverse.find_reverse"])
